@@ -9,12 +9,12 @@ import posegen as pg
 import translate_py
 
 
-def mk_file(rng, names, pts, F, D, fill, allvalid=False):
+def mk_file(rng, names, pts, F, D, fill, allvalid=False, nocolor=()):
     comps = []
     k = 0
     for i, n in enumerate(pts):
         comps.append({"name": pg.cps(names[i]), "format": pg.cps("XYZ"[:D] + "C"), "points": [pg.cps("p%d_%d" % (i, j)) for j in range(n)],
-                      "limbs": [[0, max(0, n - 1)]] if n else [], "colors": [[10 * i, 1, 2]] if n else []})
+                      "limbs": [[0, max(0, n - 1)]] if n else [], "colors": [[10 * i, 1, 2]] if n and i not in nocolor else []})
     T = sum(pts)
     n = F * 1 * T * D
     case = {"dims": [100 + fill, 200, 0], "comps": comps, "fps": pg.b64(25.0), "shape": [F, 1, T, D], "cshape": [F, 1, T], "dtype": "f32",
@@ -25,7 +25,7 @@ def mk_file(rng, names, pts, F, D, fill, allvalid=False):
     return w[1]
 
 
-MUTATORS = ["focus", "set_width", "new_dimensions", "rename_component", "rename_point", "append_limb", "edit_color", "pop_component",
+MUTATORS = ["focus", "set_width", "new_dimensions", "rename_component", "rename_point", "append_limb", "edit_color", "append_color", "pop_component",
             "write_body", "write_conf", "set_fps", "normalize_size", "mask_cell", "mask_all", "assign_mask"]
 
 
@@ -53,6 +53,9 @@ def apply_mutator(pose, name):
             if len(c.colors):
                 c.colors[0][0] = 999
                 break
+    elif name == "append_color":
+        # only a component whose colours are held in a list can grow in place (an ndarray refuses: the owner's call fails, nothing changes)
+        h.components[-1].colors.append((7, 7, 7))
     elif name == "pop_component":
         if len(h.components) > 1:
             h.components.pop()
@@ -116,8 +119,8 @@ class C06(common.Prop):
         self.files = {
             "A": mk_file(r, ["body", "hand"], [3, 2], 4, 2, 1),
             "A2": mk_file(r, ["body", "hand"], [3, 2], 6, 2, 1),      # identical header, other body
-            "B": mk_file(r, ["bo"], [2], 3, 2, 2),                     # shorter header
-            "C": mk_file(r, ["body", "hand", "face_long_name"], [3, 2, 4], 3, 2, 3),   # longer header
+            "B": mk_file(r, ["bo"], [2], 3, 2, 2, nocolor=(0,)),       # shorter header; its component lists no colours
+            "C": mk_file(r, ["body", "hand", "face_long_name"], [3, 2, 4], 3, 2, 3, nocolor=(2,)),   # longer header; last component colourless
             "D": mk_file(r, ["bodz", "hanb"], [3, 2], 4, 2, 4),       # equal-length header, different content
             "V": mk_file(r, ["body", "hand"], [3, 2], 4, 2, 5, allvalid=True),     # nothing missing anywhere (no zero confidence)
             "V2": mk_file(r, ["bo"], [5], 4, 2, 6, allvalid=True),                  # same body shape as V, nothing missing either
